@@ -182,15 +182,16 @@ where
             }
 
             let mut interpolated_state = from.clone();
-            for i in 1..=num_steps {
+            for i in 1..num_steps {
                 let t = i as f64 / num_steps as f64;
                 space.interpolate(from, to, t, &mut interpolated_state);
                 if !vc.is_valid(&interpolated_state) {
                     return false;
                 }
             }
-
-            true
+            // The end point is what gets stored: ask about `to` itself, not about `interpolate(from, to, 1.0)`,
+            // which rounding can make differ from it.
+            vc.is_valid(to)
         } else {
             false
         }
